@@ -130,6 +130,26 @@ def run(ctx):
         texts.append(" ".join(h[i:i + 2] for i in range(0, min(len(h), 200), 2)) + h[200:])
         texts.append(h.upper())
         texts.append(h[:10] + "zz" + h[12:])
+    # non-canonical compact sizes WITH the payload they announce (the length field of a scriptSig / scriptPubKey / witness item)
+    def tx_with_len_enc(L, enc, where):
+        pay = bytes([0x6a]) * L
+        ver = (2).to_bytes(4, "little")
+        inp = bytes(32) + (0).to_bytes(4, "little")
+        ss = (enc + pay) if where == "scriptsig" else b"\x00"
+        spk = (enc + pay) if where == "spk" else b"\x01\x51"
+        body = ver + (b"\x00\x01" if where == "witness" else b"") + b"\x01" + inp + ss + b"\xff\xff\xff\xff" + b"\x01" + (1000).to_bytes(8, "little") + spk
+        if where == "witness":
+            body += b"\x01" + enc + pay
+        return (body + (0).to_bytes(4, "little")).hex()
+    for L in (0, 1, 100, 251, 252, 253, 254, 255, 256, 65535, 65536):
+        encs = [b"\xfd" + L.to_bytes(2, "little")] if L <= 0xffff else []
+        encs += [b"\xfe" + L.to_bytes(4, "little"), b"\xff" + L.to_bytes(8, "little")]
+        if L < 253: encs.append(bytes([L]))
+        for enc in encs:
+            for where in ("scriptsig", "spk", "witness"):
+                if L > 10000 and quick and where != "scriptsig":
+                    continue
+                texts.append(tx_with_len_enc(L, enc, where))
     # non-canonical compact sizes in the input count
     for enc in ("fd0100", "fdfc00", "fe01000000", "feffff0000", "ff0100000000000000", "fe00000003", "ffffffffffffffffff"):
         texts.append("01000000" + enc + "00" * 41 + "00" + "00000000")
